@@ -60,10 +60,13 @@ def ev(t, env):
             return [f32(a * b)]
         if o == "/":
             if b == 0:
-                raise Skip()
+                # IEEE: x/0 = +-inf, 0/0 = NaN (a negative zero divisor is not judged)
+                if math.copysign(1.0, b) < 0:
+                    raise Skip()
+                return [math.nan if (a == 0 or math.isnan(a)) else math.copysign(math.inf, a)]
             return [f32(a / b)]
         if o == "%":
-            if b == 0:
+            if b == 0 or math.isinf(a) or math.isnan(a) or math.isnan(b) or math.isinf(b):
                 raise Skip()
             r = math.fmod(a, b)
             if r < 0:
@@ -226,6 +229,8 @@ def text_of(toks, rnd):
 def close1(got, exp):
     if isinstance(exp, str):
         return got == "'" + exp + "'"
+    if math.isnan(exp) or math.isinf(exp):
+        return got == ("NaN" if math.isnan(exp) else "inf" if exp > 0 else "-inf")
     try:
         g = float(got)
     except ValueError:
@@ -233,14 +238,30 @@ def close1(got, exp):
     return abs(g - exp) <= 0.0015 + 2e-5 * abs(exp)
 
 
-def close(got, exp):
-    """got: printed value; exp: list of items.  None: not comparable (inf / nan)"""
-    if any((not isinstance(v, str)) and (math.isnan(v) or math.isinf(v)) for v in exp):
+def close(got, exp, special=False):
+    """got: printed value; exp: list of items.  None: not comparable (inf / nan outside IEEE-only trees)"""
+    if not special and has_special(exp):
         return None
     parts = got.split(", ") if got != "" else []
     if len(parts) != len(exp):
         return False
     return all(close1(g, e) for g, e in zip(parts, exp))
+
+
+def ieee_only(t):
+    """special values are judged where they come from IEEE division, addition, multiplication, negation
+    and comparison alone (functions applied to NaN / inf have no stated convention)"""
+    if t["op"] == "num":
+        return True
+    if t["op"] == "neg" or (t["op"] == "bin" and t["v"] in ("+", "-", "*", "/", "lt", "gt", "le", "ge", "eq", "ne")):
+        return all(ieee_only(a) for a in t["a"])
+    if t["op"] == "call" and t["v"] in ("lt", "gt", "le", "ge", "eq", "ne"):
+        return all(ieee_only(a) for a in t["a"])
+    return False
+
+
+def has_special(exp):
+    return any((not isinstance(v, str)) and (math.isnan(v) or math.isinf(v)) for v in exp)
 
 
 def scalar(exp):
@@ -269,6 +290,8 @@ def run(rep, tier, seed):
         by = {}
         for g in good:
             key = g["tree"]["v"] if g["tree"]["op"] == "call" else "-"
+            if '"/", "0"' in json.dumps([t for t in g["toks"]]) or any(a == "/" and b == "0" for a, b in zip(g["toks"], g["toks"][1:])):
+                key = "special:" + key      # division by zero: inf / NaN operands
             by.setdefault(key, []).append(g)
         per = max(60, (limit // 2) // max(1, len(by) - 1))
         sel = []
@@ -288,7 +311,7 @@ def run(rep, tier, seed):
             exp = ev(g["tree"], env)
         except Skip:
             continue
-        if close("", exp) is None:
+        if has_special(exp) and not ieee_only(g["tree"]):
             continue
         txt = text_of(g["toks"], random.Random(rnd.random()))
         cases.append({"k": f"c14-{j}", "op": "evalattr", "vars": [[k, v] for k, v in env.items()], "expr": "{{" + txt + "}}",
@@ -301,7 +324,7 @@ def run(rep, tier, seed):
         if rr["status"] != "ok":
             rep.violation(f"expr:{kind}:{rr['status']}", {"expr": c["txt"], "env": c["env"], "tree": c["tree"], "expected": c["exp"], "err": rr.get("err")})
             continue
-        ok = close(rr["out"], c["exp"])
+        ok = close(rr["out"], c["exp"], special=True)
         if ok is False:
             rep.violation(f"expr:{kind}:value", {"expr": c["txt"], "env": c["env"], "tree": c["tree"], "expected": c["exp"], "got": rr["out"],
                                                   "detail": "value printed by the evaluator differs from the f32 value of the tree the string denotes"})
@@ -334,7 +357,7 @@ def run(rep, tier, seed):
             lambda e: f'<svg><var a="{{a}}" b="{{b}}"/><rect id="s" wh="2" _="{{{{{e}}}}}"/></svg>',
             lambda e: f'<svg><var a="{{a}}" b="{{b}}"/><loop count="2" loop-var="i" start="{{{{{e}}}}}" step="{{{{{e}}}}}"><rect class="it" wh="1" data-v="$i"/></loop></svg>',
             lambda e: f'<svg><var a="{{a}}" b="{{b}}"/><if test="{{{{{e}}}}}"><rect id="s" wh="2" data-v="1"/></if><rect id="z" xy="5 5" wh="1"/></svg>']
-    scal = [c for c in cases if scalar(c["exp"])]
+    scal = [c for c in cases if scalar(c["exp"]) and not has_special(c["exp"])]
     dsel = rnd.sample(scal, min(len(scal), 4000 if big else 800))
     dcases = []
     for j, c in enumerate(dsel):
@@ -443,11 +466,27 @@ def run(rep, tier, seed):
     # degenerate bounds; counted through the rng hook and compared with the occurrences
     occ = ["random()", "randint(1, 6)", "randint(7, 7)", "randint(0, 0)", "randint(-2, -2)", "randint(3, 4)"]
     ocases = []
-    for j in range(60 if big else 24):
+    # ... whatever element carries the occurrence, however it is written (text as attribute or
+    # as content, shapes, text, groups, variables, conditions, instances)
+    hosts = ['<rect wh="1" data-r{i}="{{{{{e}}}}}"/>', '<rect wh="3" data-r{i}="{{{{{e}}}}}">label</rect>',
+             '<circle r="2" data-r{i}="{{{{{e}}}}}" text="t"/>', '<text xy="0 0" data-r{i}="{{{{{e}}}}}">content</text>',
+             '<text xy="0 0" data-r{i}="{{{{{e}}}}}" text="attr"/>', '<g data-r{i}="{{{{{e}}}}}"><rect wh="1"/></g>',
+             '<line xy1="0 0" xy2="3 3" data-r{i}="{{{{{e}}}}}" text="l"/>', '<rect wh="2" text="{{{{{e}}}}}"/>',
+             '<rect wh="{{{{1 + {e}}}}}">sized</rect>', '<var v{i}="{{{{{e}}}}}"/>', '<if test="{{{{1 + {e}}}}}"><rect wh="1"/></if>',
+             '<ellipse rxy="2 1" data-r{i}="{{{{{e}}}}}">e</ellipse>', '<reuse href="#tpl" data-r{i}="{{{{{e}}}}}"/>',
+             '<rect wh="2" data-r{i}="{{{{{e}}}}}"><![CDATA[cd]]></rect>', '<polyline points="0 0 2 2" data-r{i}="{{{{{e}}}}}"/>',
+             # in the attributes the pipeline looks at before the others
+             '<rect id="r{i}-{{{{{e}}}}}" wh="1"/>', '<g id="g{i}-{{{{{e}}}}}"><rect wh="1"/></g>', '<circle id="c{i}-{{{{{e}}}}}" r="2">txt</circle>',
+             '<reuse href="#tpl" x="2" id="i{i}-{{{{{e}}}}}"/>', '<text id="t{i}-{{{{{e}}}}}" xy="0 0" text="x"/>', '<rect class="k{{{{{e}}}}}" wh="1"/>',
+             '<rect style="opacity: {{{{{e}}}}}" wh="1"/>', '<rect transform="rotate({{{{{e}}}}})" wh="1"/>', '<rect xy="#tpl2|h {{{{{e}}}}}" wh="1"/>',
+             '<rect wh="1" text="t" text-loc="t" text-offset="{{{{{e}}}}}"/>', '<use href="#tpl" x="{{{{{e}}}}}"/>', '<rect surround="#tpl2" margin="{{{{{e}}}}}"/>',
+             '<path d="M 0 0 h {{{{{e}}}}}"/>', '<line start="#tpl2" end="{{{{{e}}}}} 9"/>']
+    for j in range(120 if big else 40):
         k = rnd.randint(1, 5)
         picks = [rnd.choice(occ) for _ in range(k)]
-        body = "".join(f'<rect wh="1" data-r{i}="{{{{{e}}}}}"/>' for i, e in enumerate(picks))
-        ocases.append({"k": f"c14o-{j}", "xml": f"<svg>{body}</svg>", "cfg": {"seed": j}, "n": k, "picks": picks})
+        plain = j % 4 == 0
+        body = "".join((hosts[0] if plain else rnd.choice(hosts)).format(i=i, e=e) for i, e in enumerate(picks))
+        ocases.append({"k": f"c14o-{j}", "xml": f'<svg><specs><rect id="tpl" wh="1"/></specs><rect id="tpl2" xy="20 20" wh="2"/>{body}</svg>', "cfg": {"seed": j}, "n": k, "picks": picks})
     ores = vlib.run_cases([{"k": c["k"], "xml": c["xml"], "cfg": c["cfg"], "trace": False} for c in ocases])
     for c in ocases:
         rr = ores[c["k"]]
